@@ -201,6 +201,8 @@ class RepoIndex:
                 return VStr(val.value)
         if name == 'logger':
             return VBuiltin('logger')
+        if name in ('functools', 'operator', 'itertools'):
+            return VBuiltin(name)           # standard-library modules whose functions the interpreter models (interp.BUILTINS)
         if name in self.classes:
             return VClass(name)
         if name in self.functions:
